@@ -339,6 +339,10 @@ pub fn check(sh: &Shared, c: &Case) -> Check {
                     })
                     .collect::<Vec<_>>()
             });
+            let Ok(got) = got else {
+                sh.class("inconclusive/context-thread-not-started");
+                continue;
+            };
             let Some(got) = got else { fail!("context:thread-died", "the thread evaluating {show:?} inside {ctx:?} died") };
             for (x, g) in v.iter().zip(got.iter()) {
                 let want = in01(*x);
